@@ -72,14 +72,36 @@ def run_game_models(pid, clusters, hashed, primes, U=2, workers=8):
     return states, trans, unsound
 
 
-def run_strategies(pid, strategies, seed, tag):
+def run_strategies(pid, strategies, seed, tag, jobs=1):
     d = os.path.join(WORK, f"{pid}_run")
     os.makedirs(d, exist_ok=True)
     sp, tp = os.path.join(d, f"{tag}.strategies.ndjson"), os.path.join(d, f"{tag}.trace.ndjson")
     with open(sp, "w") as f:
         for s in strategies:
             f.write(json.dumps(s) + "\n")
-    harness(["game", "--strategies", sp, "--out", tp, "--seed", seed])
+    if jobs <= 1 or len(strategies) < 2 * jobs:
+        harness(["game", "--strategies", sp, "--out", tp, "--seed", seed])
+    else:
+        import subprocess
+        procs = []
+        for j in range(jobs):
+            part = strategies[j::jobs]
+            pj, tj = f"{sp}.{j}", f"{tp}.{j}"
+            with open(pj, "w") as f:
+                for s in part:
+                    f.write(json.dumps(s) + "\n")
+            procs.append((subprocess.Popen([BIN, "game", "--strategies", pj, "--out", tj, "--seed", str(seed)],
+                                           stdout=subprocess.PIPE, stderr=subprocess.STDOUT, text=True), tj))
+        evs = []
+        for pr, tj in procs:
+            out, _ = pr.communicate(timeout=3600)
+            if pr.returncode != 0:
+                raise ToolError(f"harness game exited {pr.returncode}:\n{out[-3000:]}")
+            evs += [json.loads(l) for l in open(tj)]
+        evs.sort(key=lambda e: e.get("id", 0))
+        with open(tp, "w") as f:
+            for e in evs:
+                f.write(json.dumps(e) + "\n")
     events = [json.loads(l) for l in open(tp)]
     for e in events:
         if "error" in e:
@@ -137,10 +159,65 @@ def check_C01(tier, seed):
                            "abstraction of strategies into Z_7 cluster instances (lib/game_strats.py) and the independent relation evaluator (harness/src/indep.rs) are trusted"])
 
 
+PAY_CLUSTERS = [
+    ("pay.cid", "Eq3", "Eq3Cons", "PubB", "None", "None", {"a": "st", "b": "cl", "c": "pt"}, None),
+    ("pay.nonce", "Open1", "Open1Cons", "PubB", "RevS", "None", {"a": "pt"}, "nonce"),
+    ("pay.tag", "Open1", "Open1Cons", "PubB", "RevS", "None", {"a": "cl"}, "tag"),
+    ("pay.oldlock", "Eq2", "Eq2Cons", "PubB", "None", "None", {"a": "rl", "b": "pt"}, None),
+    ("pay.newlock", "Eq2", "Eq2Cons", "PubB", "None", "None", {"a": "st", "b": "cl"}, None),
+]
+PAY_BAL = [
+    ("pay.cb", "Bal1", "Bal1NegCons", "PubA", "None", "D1", {"pt": "pt", "st": "st", "cl": "cl", "d1": "cdig"}, None),
+    ("pay.mb", "Bal1", "Bal1PosCons", "PubA", "None", "D1", {"pt": "pt", "st": "st", "cl": "cl", "d1": "mdig"}, None),
+]
+PAY_BAL2 = [
+    ("pay.cb2", "Bal2", "Bal2NegCons", "PubA", "None", "D12", {"pt": "pt", "st": "st", "cl": "cl", "d1": "cdig", "d2": "cdig"}, None),
+]
+
+
+def check_C02(tier, seed):
+    t0 = time.time()
+    build_harness()
+    d = workdir("C02_run")
+    obs_path = os.path.join(d, "observe_pay.json")
+    harness(["observe", "--proof", "pay", "--out", obs_path, "--seed", seed])
+    obs = json.load(open(obs_path))
+    if not obs["honest_accepted"]:
+        raise Violation("C02", "the library's own honest pay proof is rejected by allow_payment",
+                        {"kind": "game", "property": "C02", "seed": seed, "strategy": gs.pay_strategies(gs.pay_hashed(obs), "quick")[0]})
+    hashed = gs.pay_hashed(obs)
+    q = tier == "quick"
+    states, trans, unsound = run_game_models("C02", PAY_CLUSTERS, hashed, [5] if q else [3, 5, 7, 11])
+    s2, t2, u2 = run_game_models("C02b", PAY_BAL, hashed, [3] if q else [3, 5], workers=12)
+    states += s2; trans += t2; unsound += u2
+    if not q:
+        s3, t3, u3 = run_game_models("C02c", PAY_BAL2, hashed, [5], workers=14)
+        states += s3; trans += t3; unsound += u3
+    strategies = gs.pay_strategies(hashed, tier)
+    events = run_strategies("C02", strategies, seed, "pay", jobs=8)
+    forged = [e for e in events if e["accepted"] and not e["truth"]]
+    if unsound and not forged:
+        raise ToolError(f"TLC reports Sound violated for {unsound} under the observed transcript but no strategy was accepted by the real verifier: model/harness mismatch")
+    classes = {(e["strategy"].split(",")[0], tuple(sorted(k for k, v in e["atoms"].items() if not v)), e["accepted"]) for e in events}
+    cov = {"states": states, "transitions": trans, "traces_validated_against_impl": len(events),
+           "evaluations": len(events), "distinct_nontrivial": len(classes),
+           "rule": "one evaluation = one pay proof built by the adversarial prover on a real pay token for a strategy of the catalogue (every false variant of the statement x "
+                   "{honest-but-lying, unlinked, late revealed scalar, simulated T, simulated C}) and submitted to merchant::Config::allow_payment; "
+                   "distinct = (strategy family, set of violated relations, verdict)",
+           "samples": [{"strategy": e["strategy"], "accepted": e["accepted"], "truth": e["truth"], "violated_relations": [k for k, v in e["atoms"].items() if not v]} for e in events[:2] + events[8:12]],
+           "observed_hashed": {k: hashed[k] for k in ("rev", "C", "T")}, "unhashed_atoms": hashed["other_unhashed"],
+           "accepted_strategies": sum(1 for e in events if e["accepted"]), "exhaustive": False,
+           "checker_cmd": "tlc MC_Game (Sound Dichotomy Complete InRange per cluster, hashed sets observed) + Trace_Game on adversarial executions"}
+    return write_evidence("C02", tier, seed, "model_checking", cov, time.time() - t0, 0,
+                          ["A1 algebraic group model, A2 PS unforgeability (pay token and digit signatures), A3 random oracle, A4 small-field lemmas transfer (DESIGN.md section 8)",
+                           "balance cluster checked with L = 1 digit (quick) / L = 2 (thorough), radix 2, instead of 9 digits radix 128",
+                           "abstraction of strategies into Z_7 cluster instances (lib/game_strats.py) and the independent relation evaluator (harness/src/indep.rs) are trusted"])
+
+
 def replay_game(pid, p):
     st = p["strategy"]
     run_strategies(pid, [st], p["seed"], "replay")
 
 
-REGISTRY = {"C01": check_C01}
+REGISTRY = {"C01": check_C01, "C02": check_C02}
 REPLAY = {"game": replay_game}
